@@ -75,9 +75,17 @@ func (m *Dev) CheckFrame(lay *LedLayout, frame [][3]byte, ext Ext, pal *Palette)
 	}
 	offset := 12*m.Oct + m.Semi
 	mp := &m.D.Mappings[m.Map]
-	// keys of the current mapping, whichever sub-handler reports them: code -> base note
+	// keys of the current mapping, whichever handler of this device reports them: code -> base note. Sections for
+	// sub-handlers the device does not have (a configuration shared by several models) say nothing about its keys.
 	base := map[uint16]int{}
 	for _, sk := range mp.Keys {
+		has := false
+		for _, h := range m.D.Handlers {
+			has = has || h == sk.Sub
+		}
+		if !has {
+			continue
+		}
 		for _, k := range sk.Keys {
 			base[k.Code] = k.Note
 		}
